@@ -158,14 +158,17 @@ CLAIMED["C12"] = dict(
          "UndefinedBehaviorSanitizer and executed inside the simulator, so that which slot/buffer/task is reused by "
          "whom is decided by seeded schedules; stack and heap pre-filled with 0xA5 so that uninitialised reads are "
          "hostile and reproducible; plus a heap-perturbation part (same case twice with malloc fill 0x00 / 0xA5 must "
-         "give identical snapshots and event log). Oracle: normal return, no sanitizer report / signal / abort, "
+         "give identical snapshots and event log); plus a memcheck part: both engines run whole under valgrind and "
+         "ask memcheck after every simulated run whether it reported a decision on uninitialised memory or an "
+         "invalid access during that run. Oracle: normal return, no sanitizer / memcheck report / signal / abort, "
          "outputs exist.",
     note="MemorySanitizer cannot be used with the uninstrumented libstdc++/libhdf5; uninitialised-memory decisions "
-         "are covered through hostile fill + behavioural comparison only. The legacy (non task-based), dust and "
+         "are covered through hostile fill + behavioural comparison and through memcheck (about 50x slower, so fewer "
+         "runs). The legacy (non task-based), dust and "
          "emission modes are not simulated. One known finding (cooling table lookup with NaN temperature) is listed "
          "in known_findings.json.",
-    technique="deterministic simulation under ASan/UBSan with seeded schedules, hostile memory fill and heap perturbation",
-    engine="E-ION + E-RHD (asan variant)", design_ref="6/C12")
+    technique="deterministic simulation under ASan/UBSan and under valgrind memcheck with seeded schedules, hostile memory fill and heap perturbation",
+    engine="E-ION + E-RHD (asan and valgrind variants)", design_ref="6/C12")
 CLAIMED["C13"] = dict(
     level="exploration",
     text="Two parts. (1) Run-to-run identity: the same generated photoionization problem (one thread) is executed "
